@@ -257,6 +257,83 @@ def auto_interval(site, bounds):
     return None
 
 
+def auto_guard_sub(site):
+    """`x - c` (c a constant) whose block is reached only through the true edge of a comparison of the same place that implies x >= c
+    (`x > k`, `x >= k`, `x != 0`, or the false edge of `x == 0` / `x < k` / `x <= k`), with no write to x and no call in between."""
+    if site.kind != "assert" or site.term.get("msg") != "Overflow(Sub)":
+        return None
+    ops = site.term.get("ops", [])
+    if len(ops) != 2 or not _is_const_op(ops[1]):
+        return None
+    c = ops[1]["c"].get("int")
+    x = ops[0].get("cp") if isinstance(ops[0], dict) else None
+    if not isinstance(c, int) or x is None:
+        return None
+    body = site.body
+    preds = body.preds()
+
+    def writes(stmts):
+        return any(st.get("k") == "assign" and st.get("dst") == x for st in stmts)
+    cur = site.bi
+    if writes(body.blocks[cur].get("s", [])):
+        return None
+    for _ in range(4):
+        ps = preds[cur]
+        if len(ps) != 1:
+            return None
+        p_ = ps[0]
+        t = body.blocks[p_]["t"]
+        if t["k"] == "goto":
+            if writes(body.blocks[p_].get("s", [])):
+                return None
+            cur = p_
+            continue
+        if t["k"] != "switch":
+            return None
+        d = t["discr"].get("mv", t["discr"].get("cp"))
+        zero_edge = any(v == 0 and tgt == cur for v, tgt in t["targets"])
+        true_edge = t["otherwise"] == cur and len(t["targets"]) == 1 and t["targets"][0][0] == 0 and not zero_edge
+        if not (zero_edge or true_edge):
+            return None
+        stmts = body.blocks[p_].get("s", [])
+        cmp_i = next((i for i in range(len(stmts) - 1, -1, -1) if stmts[i].get("k") == "assign" and stmts[i].get("dst") == d and stmts[i]["rv"].get("k") == "binop"), None)
+        if cmp_i is None or writes(stmts[cmp_i + 1:]):
+            return None
+        rv = stmts[cmp_i]["rv"]
+        a_, b_ = rv["a"], rv["b"]
+
+        def is_x(o):
+            if not isinstance(o, dict):
+                return False
+            if o.get("cp") == x or o.get("mv") == x:
+                return True
+            # a temporary holding a copy of x taken earlier in the same block (x not written since)
+            l_ = o.get("mv", o.get("cp"))
+            if isinstance(l_, int):
+                for j in range(cmp_i - 1, -1, -1):
+                    st_ = stmts[j]
+                    if st_.get("k") == "assign" and st_.get("dst") == l_:
+                        src_ = st_["rv"].get("op", {}) if st_["rv"].get("k") == "use" else {}
+                        return (src_.get("cp") == x or src_.get("mv") == x) and not writes(stmts[j + 1:])
+            return False
+
+        def kst(o):
+            return o["c"].get("int") if _is_const_op(o) else None
+        op = rv["op"]
+        if is_x(b_) and kst(a_) is not None:      # `k op x`  →  `x op' k`
+            a_, b_ = b_, a_
+            op = {"Lt": "Gt", "Le": "Ge", "Gt": "Lt", "Ge": "Le"}.get(op, op)
+        k = kst(b_)
+        if not is_x(a_) or not isinstance(k, int):
+            return None
+        if true_edge:
+            ok = (op == "Gt" and k >= c - 1) or (op == "Ge" and k >= c) or (op == "Ne" and k == 0 and c == 1)
+        else:
+            ok = (op == "Eq" and k == 0 and c == 1) or (op == "Lt" and k >= c) or (op == "Le" and k >= c - 1)
+        return ("dominated by `%s %s %d` on the %s edge, no write in between" % ("x", {"Gt": ">", "Ge": ">=", "Ne": "!=", "Eq": "==", "Lt": "<", "Le": "<="}[op], k, "true" if true_edge else "false")) if ok else None
+    return None
+
+
 def auto_total(site):
     t = site.term
     if site.kind != "api":
@@ -937,6 +1014,10 @@ def run(F, R, tier):
             why = auto_interval(s, bounds)
             if why:
                 s.cls, s.why = "INTERVAL", why
+        if not s.cls:
+            why = auto_guard_sub(s)
+            if why:
+                s.cls, s.why = "GUARD", why
         if s.cls:
             counts[s.cls] += 1
             r1.site("%s: %s [%s] %s" % (short(s.fn), s.what, s.cls, s.why), s.sp)
@@ -962,7 +1043,26 @@ def run(F, R, tier):
             closed = sorted(o for o in serves if table[(o, what)][1] != "OPEN") or sorted(serves)
             o0 = closed[0]
             moved[(fn, what)] = (o0, table[(o0, what)], sorted(serves))
+    # positional Vec edits inside functions that C19-R2 evaluates concretely on every list of <= N elements in every key-equality world:
+    # an out-of-range insert / remove / drain / split_off raises Panic in that evaluation and fails C19-R2, so these sites are as safe as
+    # C19-R2 says — whichever of the equivalent positional APIs the function uses
+    MODEL_CHECKED = {IC + "ordered_set::OrderedSet::change": ["C19-R2"], IC + "ordered_set::OrderedSet::remove": ["C19-R2"], IC + "ordered_set::OrderedSet::prepend": ["C19-R2"]}
     for (fn, what), ss in sorted(groups.items()):
+        if fn in MODEL_CHECKED and (fn, what) not in table and re.match(r"Vec::(insert|remove|swap_remove|drain|split_off|truncate|split_at|splice)$", what):
+            okm = True
+            for rid in MODEL_CHECKED[fn]:
+                res = subordinate(F, rid.split("-")[0], tier)
+                if rid not in res or res[rid]:
+                    okm = False
+                    r1.fail((fn, what, "rule-failed", rid), "%s: `%s` is only safe while %s holds, and it reported %s" % (short(fn), what, rid, (res.get(rid) or ["did not run"])[0]), ss[0].sp)
+            for s_ in ss:
+                s_.cls = "RULE"
+                counts["RULE"] += 1
+                r1.site("%s: %s [RULE, %s] positional edit inside a function the ordered-set model check evaluates concretely (an out-of-range edit panics there)" % (short(fn), what, ",".join(MODEL_CHECKED[fn])), s_.sp)
+            moved[(fn, what)] = None
+    for (fn, what), ss in sorted(groups.items()):
+        if (fn, what) in moved and moved[(fn, what)] is None:
+            continue
         if (fn, what) in moved:
             tfn, (n_, cls_, arg_, reason_), serves_ = moved[(fn, what)]
             okm = True
